@@ -281,4 +281,75 @@ def Mon.stepFull (m : Mon) (line : String) (out : String) : Mon × Option String
     else m.step line out
   | _ => m.step line out
 
+
+/-! ### monitors of the wake-time engines
+
+`mrw`: the task's waker polls the reader at once when a source wakes it; `woke=` lists what those polls returned.
+A task woken by a push must find an item: the stream's ready flag has to be published BEFORE the task is woken.
+`mrs`: summary line of a multi-threaded run. -/
+
+def fieldOf (key : String) (ws : List String) : String :=
+  match ws.find? (fun w => w.startsWith (key ++ "=")) with
+  | some w => (w.drop (key.length + 1)).toString
+  | none => ""
+
+def deliverItem (m : Mon) (x : Nat) : Mon × Option String :=
+  match findSrc m.queues x with
+  | some s => ({ m with queues := m.queues.modify s List.tail, woken := true }, none)
+  | none =>
+    if m.queues.any (fun q => q.contains x) then (m, some "delivered-out-of-source-order")
+    else (m, some "delivered-item-never-pushed")
+
+def wakeItems (m : Mon) : List String → Mon × Option String
+  | [] => (m, none)
+  | w :: ws =>
+    if w.startsWith "item:" then
+      match (w.drop 5).toString.toNat? with
+      | some x => match deliverItem m x with
+        | (m', none) => wakeItems m' ws
+        | r => r
+      | none => (m, some "unparsable")
+    else wakeItems m ws
+
+def Mon.stepWake (m : Mon) (line : String) (out : String) : Mon × Option String :=
+  let ws := words out
+  let woke := fieldOf "woke" ws
+  let wakes := if woke == "-" || woke == "" then [] else woke.splitOn ","
+  match words line with
+  | ["wakepoll"] => (m, none)
+  | _ =>
+    match parseOp line with
+    | some (.push s x) =>
+      let m1 := if s < m.queues.length && !(m.closed.getD s false) then { m with queues := m.queues.modify s (· ++ [x]) } else m
+      -- the wake caused by this push: the poll made on the spot must find something to read
+      match wakes with
+      | w :: _ => if w.startsWith "item:" then wakeItems m1 wakes else (m1, some "multireader-woken-before-ready")
+      | [] => (m1, none)
+    | some (.close s) => wakeItems { m with closed := m.closed.set s true } wakes
+    | some .poll =>
+      match ws with
+      | "item" :: v :: _ => match v.toNat? with
+        | some x => deliverItem m x
+        | none => (m, some "unparsable")
+      | "pending" :: _ =>
+        if m.queues.any (fun q => !q.isEmpty) then (m, some "pending-though-item-available") else (m, none)
+      | "none" :: _ =>
+        if m.queues.any (fun q => !q.isEmpty) then (m, some "ended-though-item-available") else (m, none)
+      | _ => (m, some "unparsable")
+    | some op => (m.step line "ok w=0").1 |> fun m' => (m', none)
+    | none => (m, some "unparsable")
+
+/-- verdict on one multi-threaded run -/
+def stressVerdict (out : String) : Option String :=
+  let ws := words out
+  let n := fun k => (fieldOf k ws).toNat?
+  match n "pushed", n "delivered", n "dup", n "disorder", n "stuck", n "dead" with
+  | some p, some d, some dup, some dis, some stuck, some dead =>
+    if dead > 0 || stuck > 0 then some "multireader-lost-wakeup-under-threads"
+    else if dup > 0 then some "multireader-item-duplicated"
+    else if dis > 0 then some "multireader-order-violated"
+    else if d ≠ p then some "multireader-item-lost"
+    else none
+  | _, _, _, _, _, _ => some "unparsable"
+
 end SwimVerif.MultiReader
